@@ -111,6 +111,7 @@ def convert_grid_2d(
     is_native = len(grid_2d.shape) == 3
 
     if is_native:
+        grid_2d = grid_2d.copy()
         grid_2d[:, :, 0] *= np.invert(mask_2d)
         grid_2d[:, :, 1] *= np.invert(mask_2d)
 
